@@ -10,7 +10,10 @@ the constants / pad width / checked-ness flags that `rs2lean` regenerates from t
 namespace SafeNet.Props.C16
 open SafeNet.Dec SafeNet.Amount SafeNet.Gen.Amount
 
-/-- The decimal grammar `digits+ ('.' digits*)?` with explicit digit lists. -/
+/-- The decimal grammar `digits+ ('.' digits*)?` with explicit digit lists (`u` = integer digits, `f` = the
+fractional digits AS WRITTEN, trailing zeros included; the bound "at most 18 fractional digits" is the separate
+conjunct `f.length ≤ 18` in the theorems). A whole amount written with a bare trailing point (`"1."`, zero
+fractional digits) is in the grammar: the crate's own test-suite asserts `from_str("0.")` / `from_str("1.")`. -/
 inductive Grammar : List Nat → List Nat → List Nat → Prop
   | whole (u : List Nat) : Digits u → u ≠ [] → Grammar (toChars u) u []
   | frac (u f : List Nat) : Digits u → u ≠ [] → Digits f → Grammar (toChars u ++ 46 :: toChars f) u f
@@ -26,7 +29,7 @@ theorem parse_of_grammar {s u f : List Nat} (g : Grammar s u f) : parse s = pars
 theorem grammar_of_parse_ok {s : List Nat} {n : Nat} (h : parse s = .ok n) :
     ∃ u f, Grammar s u f := by
   have hspec := splitDot_spec s
-  unfold parse at h
+  unfold parse parseWith at h
   generalize splitDot s = p at h hspec
   obtain ⟨us, fo⟩ := p
   simp only at h hspec
@@ -107,12 +110,47 @@ theorem display_denotes (n : Nat) :
 /-- **Soundness of parsing**: an accepted string is a decimal string `u[.f]` and the amount is its
 exact value: `n / 10^18 = u + f / 10^|f|` (stated without division), and `n` is representable. -/
 theorem parse_sound (s : List Nat) (n : Nat) (h : parse s = .ok n) :
-    ∃ u f, Grammar s u f ∧ n < U256 ∧
+    ∃ u f, Grammar s u f ∧ f.length ≤ 18 ∧ n < U256 ∧
       n * 10 ^ f.length = (ofDigits u * 10 ^ f.length + ofDigits f) * 10 ^ 18 := by
   obtain ⟨u, f, g⟩ := grammar_of_parse_ok h
   rw [parse_of_grammar g] at h
   obtain ⟨_, hlt, heq⟩ := parseSpec_sound u f n h
-  exact ⟨u, f, g, hlt, heq⟩
+  exact ⟨u, f, g, ((parseSpec_ok_iff u f n).mp h).2.1, hlt, heq⟩
+
+/-- **Parsing accepts exactly** the decimal strings with at most 18 fractional digits (as written) that
+denote a representable amount, with exactly that amount — and nothing else. -/
+theorem parse_accepts_iff (s : List Nat) (n : Nat) :
+    parse s = .ok n ↔
+      ∃ u f, Grammar s u f ∧ f.length ≤ 18 ∧
+        n = ofDigits u * 10 ^ 18 + ofDigits f * 10 ^ (18 - f.length) ∧ n < U256 := by
+  constructor
+  · intro h
+    obtain ⟨u, f, g⟩ := grammar_of_parse_ok h
+    rw [parse_of_grammar g] at h
+    obtain ⟨_, hlen, hval, hlt⟩ := (parseSpec_ok_iff u f n).mp h
+    exact ⟨u, f, g, hlen, hval, hlt⟩
+  · rintro ⟨u, f, g, hlen, hval, hlt⟩
+    rw [parse_of_grammar g]
+    have hne : u ≠ [] := by cases g <;> assumption
+    exact (parseSpec_ok_iff u f n).mpr ⟨hne, hlen, hval, hlt⟩
+
+/-- **More than 18 fractional digits are rejected**, whatever they are (also when the excess digits are all
+zeros: `"1.0000000000000000000"`). -/
+theorem parse_rejects_over_precise (s u f : List Nat) (g : Grammar s u f) (hlen : 18 < f.length) :
+    ∃ e, parse s = .error e := by
+  match hp : parse s with
+  | .error e => exact ⟨e, rfl⟩
+  | .ok n =>
+    exfalso
+    rw [parse_of_grammar g] at hp
+    have := ((parseSpec_ok_iff u f n).mp hp).2.1
+    omega
+
+/-- Witness for the shape before the repair (the fraction measured only after trailing zeros were trimmed):
+`"1.0000000000000000000"` — 19 fractional digits — was accepted as one whole token. -/
+theorem untrimmed_length_unchecked_witness :
+    parseWith false ([49, 46] ++ List.replicate 19 48) = .ok 1000000000000000000 := by
+  rfl
 
 /-- **Completeness of parsing**: every decimal string with at most 18 fractional digits whose value
 is representable is accepted, with exactly that value. -/
@@ -189,6 +227,10 @@ example : Grammar (toChars [1, 2] ++ 46 :: toChars [5]) [1, 2] [5] :=
 example : parse (toChars [1, 2] ++ 46 :: toChars [5]) = .ok 12500000000000000000 :=
   parse_complete _ [1, 2] [5] (Grammar.frac _ _ (by simp [Digits]) (by simp) (by simp [Digits]))
     (by simp) (by unfold U256; decide)
+-- "1." is accepted (zero fractional digits), "1.000000000000000000" (18) too, 19 zeros are not
+example : parse [49, 46] = .ok 1000000000000000000 := rfl
+example : parse ([49, 46] ++ List.replicate 18 48) = .ok 1000000000000000000 := rfl
+example : parse ([49, 46] ++ List.replicate 19 48) = .error .lossOfPrecision := rfl
 -- "0x10" and "1_0" and "" are rejected
 example : parse [48, 120, 49, 48] = .error .units := rfl
 example : parse [49, 95, 48] = .error .units := rfl
@@ -202,6 +244,9 @@ end SafeNet.Props.C16
 #print axioms SafeNet.Props.C16.parse_display
 #print axioms SafeNet.Props.C16.display_denotes
 #print axioms SafeNet.Props.C16.parse_sound
+#print axioms SafeNet.Props.C16.parse_accepts_iff
+#print axioms SafeNet.Props.C16.parse_rejects_over_precise
+#print axioms SafeNet.Props.C16.untrimmed_length_unchecked_witness
 #print axioms SafeNet.Props.C16.parse_complete
 #print axioms SafeNet.Props.C16.parse_rejects_non_decimal
 #print axioms SafeNet.Props.C16.parse_never_wraps
